@@ -103,6 +103,9 @@ RkIter == /\ E.ev = "rk_iter"
 Next == l <= Len(Rec) /\ (CtNew \/ CtNext \/ RkNew \/ RkNext \/ RkIter) /\ l' = l + 1
 Spec == Init /\ [][Next]_vars
 
+\* reaching the end of the trace ends the search at once (reported by TLC as a violation of NotDone = accepted);
+\* otherwise the postcondition reports the longest matched prefix
+NotDone == l <= Len(Rec)
 Matched == TLCGet("stats").diameter - 1
 TraceAccepted ==
     \/ Matched = Len(Rec)
